@@ -17,6 +17,7 @@ PATTERNS = [
     ("duration", re.compile(r"from_secs_f64|from_secs_f32|Duration::new\(")),
     ("stablevec", re.compile(r"\.insert\(|\.reserve_for\(|\.reserve\(")),
     ("push", re.compile(r"\.push\(")),
+    ("float", re.compile(r"parse::<f(32|64)>|\bf(32|64)::|:\s*f(32|64)\b|as_secs_f(32|64)")),
     # std calls with a documented panic on an out-of-range / non-boundary argument
     ("cut", re.compile(r"\.(truncate|split_at|split_at_mut|split_off|drain|remove|swap_remove|insert_str|replace_range|copy_from_slice|"
                        r"clone_from_slice|chunks|chunks_exact|windows|step_by|repeat|rotate_left|rotate_right|get_unchecked|with_capacity)\(|"
